@@ -172,6 +172,48 @@ def run_job(job):
             seen_text.add(key)
             res['candidates'].append({'key': key, 'desc': 'render/assemble fixpoint fails for 0x%08x (%s)' % (wv, txt),
                                       'data': {'w': wv, 'kind': 'text', 'fail': kind, 'et': et, 'msg': msg}})
+    # text fixpoint, field sweep (witness level): from the smallest word of a path, every variable field of the class takes every
+    # one of its values once (fields of <= 10 bits: register / condition / special-register numbers index name tables whose
+    # entries can collide or be missing for single values); one sweep per (class, field)
+    swept = set()
+    for r in rs:
+        if r[0] != 'OK' or r[4] is None:
+            continue
+        _, cname, name, wit, lo, hi = r
+        cls = [x for x in P.tab_mn if x.__name__ == cname]
+        if not cls:
+            continue
+        off = 32
+        for fi, m in enumerate(cls[0].mask_orig):
+            try:
+                mc = m(None, off)
+                l = mc.l
+            except Exception:
+                break
+            off -= l
+            if getattr(mc, 'fmask', 0) or l > 10 or (cname, fi) in swept:
+                continue
+            swept.add((cname, fi))
+            for v in range(1 << l):
+                wv = (lo & ~(((1 << l) - 1) << off)) | (v << off)
+                if wv == lo:
+                    continue
+                try:
+                    ok_cls = [x.__name__ for x in P.tab_mn if x.check(wv)] == [cname]
+                except Exception:
+                    ok_cls = False
+                if not ok_cls:
+                    continue
+                res['text_checked'] += 1
+                kind, et, msg, txt = _concrete_text(wv)
+                if kind == 'ok':
+                    continue
+                key = 'text:%s:%s:%s%s' % (cname, name, kind, (':' + et + ':' + msg) if et else '')
+                if key in seen_text:
+                    continue
+                seen_text.add(key)
+                res['candidates'].append({'key': key, 'desc': 'render/assemble fixpoint fails for 0x%08x (%s) [field %d of the class = %d]' % (wv, txt, fi, v),
+                                          'data': {'w': wv, 'kind': 'text', 'fail': kind, 'et': et, 'msg': msg}})
     return res
 
 
@@ -343,7 +385,7 @@ def main(argv=None):
     cov['functions_encoded'] = ['miasmx.arch.ppc_arch:ppc_mnemo_metaclass.check', 'bm.check_fbits/check_fbits_inv/get_val/set_val/parse/bin',
                                 'ppc_mn.__init__ (dis=True)', 'ppc_mn.bin', 'getname/name2str/oe2str/rc2str of every class reached']
     cov['bounds'] = ('the full 32-bit word symbolic per primary opcode (%d of 64 primary opcodes in this tier); '
-                     'text and mnemonic clauses at witnesses only (smallest/largest word of each path)' % len(js))
+                     'text and mnemonic clauses at witnesses only (smallest/largest word of each path; text clause also with every variable field of <= 10 bits of every class swept over all its values from the smallest word of a path)' % len(js))
     if cov['decodable_paths'] == 0:
         herr.append('vacuous: no decodable path')
     assumptions = ['llvm-mc 14 (-triple=powerpc) as arbiter of the mnemonic at witness words; alias table in vf/checks/c18.py',
